@@ -435,7 +435,7 @@ def run_cfg(circ_in: Circuit, inp: tuple, m: int, edges: list, adj: list[set], c
     model = MachineModel(m, CouplingGraph(edges, m))
     pl = cfg['pl']
     kw = dict(decay_delta=float(cfg.get('decay', 0.001)), decay_reset_interval=int(cfg.get('dri', 5)),
-              extended_set_size=int(cfg.get('ext', 20)))
+              extended_set_size=int(cfg.get('ext', 20)), decay_reset_on_gate=bool(cfg.get('drog', True)))
     sym = cfg.get('sym', '')         # 'routing-fwd' | 'layout-fwd' | 'layout-bwd' (comma separated)
     Choices.active = tuple(x for x in sym.split(',') if x)
     LayoutCls = ChoiceLayout if 'layout' in sym else GeneralizedSabreLayoutPass
@@ -574,7 +574,7 @@ def run_pam_cfg(circ_in: Circuit, inp: tuple, m: int, edges: list, adj: list[set
     model = MachineModel(m, CouplingGraph(edges, m))
     pl = cfg['pl']
     kw = dict(decay_delta=float(cfg.get('decay', 0.001)), decay_reset_interval=int(cfg.get('dri', 5)),
-              extended_set_size=int(cfg.get('ext', 20)))
+              extended_set_size=int(cfg.get('ext', 20)), decay_reset_on_gate=bool(cfg.get('drog', True)))
     sym = cfg.get('sym', '')
     Choices.active = tuple(x for x in sym.split(',') if x)
     LayoutCls = ChoicePAMLayout if 'layout' in sym else PAMLayoutPass
@@ -856,6 +856,7 @@ def cfg_list(kind: str) -> list:
         out.append({'pl': 'greedy', 'tp': 2, 'ext': 20, 'decay': 0.001})
         out.append({'pl': 'greedy', 'layout': False, 'ext': 20, 'decay': 0.001})     # routing without layout
         out.append({'pl': 'static', 'layout': False, 'ext': 0, 'decay': 0.0})
+        out.append({'pl': 'greedy', 'tp': 1, 'ext': 20, 'decay': 0.001, 'drog': False})   # decay_reset_on_gate off
         return out
     if kind == 'pam-quick':
         P = {'algo': 'pam'}
@@ -962,6 +963,11 @@ def obligations(tier: str) -> list[dict]:
         esc('routing-fwd/line4/T(0,3)', T, [[2, [0, 3]]], 'routing-fwd', LINE4, fixed=6)
         esc('layout-bwd/line4/T(1,2)T(0,3)', T, [[2, [1, 2]], [2, [0, 3]]], 'layout-bwd', LINE4, fixed=6)
         esc('routing-fwd/line4/T(0,1,3)', T, [[3, [0, 1, 3]]], 'routing-fwd', LINE4, fixed=13)
+        # swaps accumulated over several gates with decay_reset_on_gate=False (the escape must stay tied to ONE stuck gate)
+        esc('routing-fwd/line4/T(0,2)T(1,3)/drog0', T, [[2, [0, 2]], [2, [1, 3]]], 'routing-fwd', LINE4, fixed=12,
+            witness=False, drog=False)
+        esc('routing-fwd/line4/T(0,3)T(1,2)T(0,3)/drog0', T, [[2, [0, 3]], [2, [1, 2]], [2, [0, 3]]], 'routing-fwd', LINE4,
+            fixed=10, witness=False, drog=False)
         PQ = 'pam-quick'
         fam(3, 3, 2, [1, 8, 9], PQ, T)
         fam(3, 4, 2, [8, 9], PQ, T)
